@@ -7,26 +7,32 @@ Definition all_ws (w : bytes) : bool := forallb is_ws w.
 
 (* a string that may stand between quotation marks as it is *)
 Definition raw_ok (s : bytes) : Prop :=
-  bytes_ok s /\ wtf8_ok (length s) s = true /\ quote_body (length s) false s = s.
+  bytes_ok s /\ quote_body (length s) false s = s.
+
+(* what is known about the string tokens standing at the places of unique keys:
+   token [rq k i] is a JSON string that the spec parser reads as [ru k i] *)
+Definition sf_reads (sfok : Z -> Z -> Prop) (ru : Z -> Z -> list Z) (rq : Z -> Z -> bytes) : Prop :=
+  forall k i, sfok k i -> exists body, rq k i = 34 :: body ++ [34] /\
+    forall F rest, (length body < F)%nat -> jstr F (body ++ 34 :: rest) = Some (ru k i, rest).
 
 Definition num_ok (n : Z) : Prop := 0 <= n < 10 ^ 20.
 
 Section Gen.
-  Variable ascii : bool.
-  Variable rf : Z -> Z -> bytes.
+  Variable sfok : Z -> Z -> Prop.
+  Variable ru : Z -> Z -> list Z.
 
   Definition ls_ok (x : ls) : Prop :=
     match x with
-    | SQ s => bytes_ok s /\ (ascii = true \/ wtf8_ok (length s) s = true)
+    | SQ s => bytes_ok s
     | SR s => raw_ok s
-    | SF k i => raw_ok (rf k i)
+    | SF k i => sfok k i
     end.
 
   Definition ls_units (x : ls) : list Z :=
     match x with
     | SQ s => units s
     | SR s => units s
-    | SF k i => units (rf k i)
+    | SF k i => ru k i
     end.
 
   Fixpoint lj_ok (t : lj) : Prop :=
@@ -115,22 +121,21 @@ Proof.
   rewrite Hs; [reflexivity|]. cbn [length] in HF. rewrite app_length in HF. cbn [length] in HF. lia.
 Qed.
 
-Lemma lexes_ls ascii rf rq x s ts : (forall k i, rq k i = 34 :: rf k i ++ [34]) ->
-  ls_ok ascii rf x -> lexes s ts ->
-  lexes (render_ls ascii rq x ++ s) (TS (ls_units rf x) :: ts).
+Lemma lexes_ls ascii sfok ru rq x s ts : sf_reads sfok ru rq ->
+  ls_ok sfok x -> lexes s ts ->
+  lexes (render_ls ascii rq x ++ s) (TS (ls_units ru x) :: ts).
 Proof.
-  intros Hrq Hx Hs. destruct x as [q|q|k i]; cbn [render_ls ls_units ls_ok] in *; try rewrite Hrq.
+  intros Hrq Hx Hs. destruct x as [q|q|k i]; cbn [render_ls ls_units ls_ok] in *.
   - unfold quote_for_json. cbn [app]. rewrite <- app_assoc. cbn [app].
-    apply lexes_quoted; [|exact Hs]. intros F rest HF. destruct Hx as [Hb Hv].
+    apply lexes_quoted; [|exact Hs]. intros F rest HF.
     apply quote_roundtrip_gen; try assumption. lia.
   - cbn [app]. rewrite <- app_assoc. cbn [app].
-    apply lexes_quoted; [|exact Hs]. intros F rest HF. destruct Hx as (Hb & Hv & Hq).
-    rewrite <- Hq at 1. apply quote_roundtrip_gen; try assumption; [right; exact Hv|lia|].
+    apply lexes_quoted; [|exact Hs]. intros F rest HF. destruct Hx as (Hb & Hq).
+    rewrite <- Hq at 1. apply quote_roundtrip_gen; try assumption; [lia|].
     rewrite Hq. exact HF.
-  - cbn [app]. rewrite <- app_assoc. cbn [app].
-    apply lexes_quoted; [|exact Hs]. intros F rest HF. destruct Hx as (Hb & Hv & Hq).
-    rewrite <- Hq at 1. apply quote_roundtrip_gen; try assumption; [right; exact Hv|lia|].
-    rewrite Hq. exact HF.
+  - destruct (Hrq k i Hx) as (body & -> & Hread).
+    cbn [app]. rewrite <- app_assoc. cbn [app].
+    apply lexes_quoted; [exact Hread|exact Hs].
 Qed.
 
 (* numbers *)
@@ -224,9 +229,9 @@ Fixpoint lsize (t : lj) : nat :=
   | _ => 1%nat
   end.
 
-Definition lex_ok ascii rf rq (t : lj) : Prop :=
+Definition lex_ok ascii ru rq (t : lj) : Prop :=
   forall rest ts, lexes rest ts -> delim rest ->
-    lexes (render ascii rq t ++ rest) (toks (erase rf t) ++ ts).
+    lexes (render ascii rq t ++ rest) (toks (erase ru t) ++ ts).
 
 Lemma delim_ws_then w c rest : all_ws w = true -> is_punct c = true -> delim (w ++ c :: rest).
 Proof.
@@ -234,8 +239,8 @@ Proof.
   cbn [all_ws forallb] in Hw. apply andb_true_iff in Hw as [Hx _]. left; exact Hx.
 Qed.
 
-Lemma lex_render_all ascii rf rq : (forall k i, rq k i = 34 :: rf k i ++ [34]) ->
-  forall n t, (lsize t <= n)%nat -> lj_ok ascii rf t -> lex_ok ascii rf rq t.
+Lemma lex_render_all ascii sfok ru rq : sf_reads sfok ru rq ->
+  forall n t, (lsize t <= n)%nat -> lj_ok sfok t -> lex_ok ascii ru rq t.
 Proof.
   intro Hrq. induction n as [|n IH]; intros t Hsz Hok; [destruct t; cbn in Hsz; lia|].
   destruct t as [ms cw|es cw|x|k|].
@@ -255,18 +260,18 @@ Proof.
     destruct Hms as [Hm Hr']. destruct m as [[[w1 k] w2] v].
     destruct Hm as (H1 & H2 & Hk & Hv).
     cbn [map list_sum fold_right] in Hsz.
-    assert (Pv : lex_ok ascii rf rq v) by (apply IH; [lia|exact Hv]).
+    assert (Pv : lex_ok ascii ru rq v) by (apply IH; [lia|exact Hv]).
     destruct r as [|m2 r2].
     + cbn [map commas sep_toks fst snd]. rewrite <- !app_assoc. cbn [app]. rewrite <- !app_assoc.
-      apply lexes_ws; [exact H1|]. apply (lexes_ls ascii rf rq); [exact Hrq|exact Hk|].
+      apply lexes_ws; [exact H1|]. apply (lexes_ls ascii sfok ru rq); [exact Hrq|exact Hk|].
       apply lexes_punct; [reflexivity|]. apply lexes_ws; [exact H2|].
       apply Pv; assumption.
     + change (commas (map ?f ((w1, k, w2, v) :: m2 :: r2))) with
         ((w1 ++ render_ls ascii rq k ++ 58 :: w2 ++ render ascii rq v) ++ 44 :: commas (map f (m2 :: r2))).
       change (sep_toks (map ?g (map ?h ((w1, k, w2, v) :: m2 :: r2)))) with
-        ((TS (ls_units rf k) :: TP 58 :: toks (erase rf v)) ++ TP 44 :: sep_toks (map g (map h (m2 :: r2)))).
+        ((TS (ls_units ru k) :: TP 58 :: toks (erase ru v)) ++ TP 44 :: sep_toks (map g (map h (m2 :: r2)))).
       rewrite <- !app_assoc. cbn [app]. rewrite <- !app_assoc.
-      apply lexes_ws; [exact H1|]. apply (lexes_ls ascii rf rq); [exact Hrq|exact Hk|].
+      apply lexes_ws; [exact H1|]. apply (lexes_ls ascii sfok ru rq); [exact Hrq|exact Hk|].
       apply lexes_punct; [reflexivity|]. apply lexes_ws; [exact H2|].
       apply Pv; [|right; reflexivity].
       cbn [app]. apply lexes_punct; [reflexivity|].
@@ -286,20 +291,20 @@ Proof.
     induction es as [|e r IHes]; intros tts tail Tail Dt; [exact Tail|].
     destruct Hes as [He Hr']. destruct e as [w1 v]. cbn [fst snd] in He. destruct He as (H1 & Hv).
     cbn [map list_sum fold_right snd] in Hsz.
-    assert (Pv : lex_ok ascii rf rq v) by (apply IH; [lia|exact Hv]).
+    assert (Pv : lex_ok ascii ru rq v) by (apply IH; [lia|exact Hv]).
     destruct r as [|e2 r2].
     + cbn [map commas sep_toks fst snd]. rewrite <- !app_assoc.
       apply lexes_ws; [exact H1|]. apply Pv; assumption.
     + change (commas (map ?f ((w1, v) :: e2 :: r2))) with
         ((w1 ++ render ascii rq v) ++ 44 :: commas (map f (e2 :: r2))).
       change (sep_toks (map toks (map ?h ((w1, v) :: e2 :: r2)))) with
-        (toks (erase rf v) ++ TP 44 :: sep_toks (map toks (map h (e2 :: r2)))).
+        (toks (erase ru v) ++ TP 44 :: sep_toks (map toks (map h (e2 :: r2)))).
       rewrite <- !app_assoc.
       apply lexes_ws; [exact H1|].
       apply Pv; [|right; reflexivity].
       cbn [app]. apply lexes_punct; [reflexivity|].
       apply IHes; [lia|exact Hr'|exact Tail|exact Dt].
-  - intros rest ts Hr Hd. cbn [render erase toks app]. apply (lexes_ls ascii rf rq); [exact Hrq|exact Hok|exact Hr].
+  - intros rest ts Hr Hd. cbn [render erase toks app]. apply (lexes_ls ascii sfok ru rq); [exact Hrq|exact Hok|exact Hr].
   - intros rest ts Hr Hd. cbn [render erase toks app]. apply lexes_num; [exact Hok|exact Hd|exact Hr].
   - intros rest ts Hr Hd. cbn [render erase toks app]. apply lexes_true. exact Hr.
 Qed.
@@ -442,19 +447,19 @@ Proof.
 Qed.
 
 (* the whole text: tree, then whitespace *)
-Lemma parse_render_all ascii rf rq t trailer :
-  (forall k i, rq k i = 34 :: rf k i ++ [34]) ->
-  lj_ok ascii rf t -> all_ws trailer = true ->
-  parse_json (render ascii rq t ++ trailer) = Some (erase rf t).
+Lemma parse_render_all ascii sfok ru rq t trailer :
+  sf_reads sfok ru rq ->
+  lj_ok sfok t -> all_ws trailer = true ->
+  parse_json (render ascii rq t ++ trailer) = Some (erase ru t).
 Proof.
   intros Hrq Hok Hw. unfold parse_json.
-  assert (L : lexes (render ascii rq t ++ trailer) (toks (erase rf t) ++ [])).
-  { apply (lex_render_all ascii rf rq Hrq (lsize t) t (le_n _) Hok).
+  assert (L : lexes (render ascii rq t ++ trailer) (toks (erase ru t) ++ [])).
+  { apply (lex_render_all ascii sfok ru rq Hrq (lsize t) t (le_n _) Hok).
     - rewrite <- (app_nil_r trailer). apply lexes_ws; [exact Hw|apply lexes_nil].
     - destruct trailer as [|c w]; [exact I|]. cbn [all_ws forallb] in Hw.
       apply andb_true_iff in Hw as [Hc _]. left. exact Hc. }
   rewrite L by lia. rewrite app_nil_r.
-  rewrite <- (app_nil_r (toks (erase rf t))) at 2.
+  rewrite <- (app_nil_r (toks (erase ru t))) at 2.
   rewrite pvalue_toks; [reflexivity|].
-  pose proof (jsize_le_toks _ _ (le_n (jsize (erase rf t)))). lia.
+  pose proof (jsize_le_toks _ _ (le_n (jsize (erase ru t)))). lia.
 Qed.
